@@ -9,9 +9,12 @@ import (
 	"fmt"
 	"os"
 	"path/filepath"
+	"runtime"
 	"runtime/debug"
 	"sort"
 	"strings"
+	"sync/atomic"
+	"time"
 
 	"zverif/model"
 	"zverif/sx"
@@ -85,6 +88,7 @@ func main() {
 	// a broken proof obligation is reported whether or not a failing input is found
 	defer zh.CleanTmp()
 	curCtx = c
+	go watchdog(c)
 	f(c)
 	curCtx = nil
 	reportRaces(c)
@@ -162,6 +166,34 @@ func reportRaces(c *ctx) {
 	}
 }
 
+// watchdog: a check that stops making progress for three minutes (no case counted, no model
+// request) is blocked - in practice goroutines of the code under test waiting for a lock that is
+// never released.  That is reported as a violation with the goroutine dump, not left to a timeout.
+func watchdog(c *ctx) {
+	last, since := int64(-1), time.Now()
+	for {
+		time.Sleep(2 * time.Second)
+		cur := atomic.LoadInt64(&zh.Progress)
+		if cur != last {
+			last, since = cur, time.Now()
+			continue
+		}
+		if time.Since(since) > 180*time.Second && curCtx != nil {
+			buf := make([]byte, 1<<20)
+			n := runtime.Stack(buf, true)
+			dump := string(buf[:n])
+			if len(dump) > 20000 {
+				dump = dump[:20000]
+			}
+			cc := curCtx
+			curCtx = nil
+			cc.Violation("the check has made no progress for 180 s: the goroutines exercising the code under test are blocked (a lock that is never released, a wait that is never signalled)\n"+dump, false)
+			code := cc.Run.Finish()
+			os.Exit(code)
+		}
+	}
+}
+
 // proofBroken: the named tie lemma / theorem of this property's cone no longer checks on this tree
 // (the check then spends more effort searching for a failing input around what that lemma covers)
 func (c *ctx) proofBroken(name string) bool {
@@ -217,6 +249,7 @@ func must(err error) {
 }
 
 func ask(c *ctx, req sx.V) sx.V {
+	atomic.AddInt64(&zh.Progress, 1)
 	a, err := c.M.Ask(req)
 	mustH(err)
 	return a
